@@ -45,6 +45,7 @@ type root struct {
 	idx  int          // param index
 	obj  types.Object // global / field object
 	fn   *ssa.Function
+	eng  bool // reached through a field of the engine (yae.Expr): state shared by every compilation/invocation on that engine
 }
 
 var freshCalls = map[string]bool{
@@ -54,7 +55,7 @@ var freshCalls = map[string]bool{
 	"types.Env.Inherit": true, "val.Env.Inherit": true, "vm.NewVM": true, "vm.newStack": true, "vm.NewCompile": true, "debug.NewRecord": true,
 	"fun.valSetOf": true, "fun.union": true, "fun.intersect": true, "fun.diff": true, "conv.valOf": true, "conv.valOfSlice": true, "conv.valOfMap": true,
 	"conv.valOfStruct": true, "conv.typeOf": true, "types.applySubst": true, "strings.Split": true, "reflect.Value.MapKeys": true,
-	"vm.newThunk": true, "lexer.NewLexer": true, "parser.NewParser": true,
+	"vm.newThunk": true, "lexer.NewLexer": true, "parser.NewParser": true, "yae.NewExpr": true,
 }
 
 func ssaFuncName(f *ssa.Function) string {
@@ -145,11 +146,12 @@ func rootsOf(v ssa.Value, seen map[ssa.Value]bool, depth int) []root {
 						out = append(out, r)
 					} else {
 						st := a.X.Type().Underlying().(*types.Pointer).Elem().Underlying().(*types.Struct)
-						out = append(out, root{kind: rField, desc: "field " + st.Field(a.Field).Name() + " of " + r.desc, obj: st.Field(a.Field), idx: r.idx, fn: r.fn})
+						eng := r.eng || typeStr(a.X.Type()) == "*yae.Expr"
+						out = append(out, root{kind: rField, desc: "field " + st.Field(a.Field).Name() + " of " + r.desc, obj: st.Field(a.Field), idx: r.idx, fn: r.fn, eng: eng})
 						out[len(out)-1].idx = r.idx
 						if r.kind == rParam {
 							out[len(out)-1].desc = "field " + st.Field(a.Field).Name() + " of " + r.desc
-							out = append(out, root{kind: rParam, idx: r.idx, desc: r.desc, fn: r.fn})
+							out = append(out, root{kind: rParam, idx: r.idx, desc: r.desc, fn: r.fn, eng: eng})
 						}
 						if r.kind == rGlobal {
 							out = append(out, r)
